@@ -71,7 +71,8 @@ theorem flatten_build (hord : IsOrder ord) (pvs : List PV) (S : List Entry)
     (hd : pathsDistinct pvs = true) (hp : prunePathValues pvs false = S.map Entry.toPV)
     (hc : consistent rfc S = true) (hu : uniformKeys (S.map (·.1)) = true) :
     ∃ m, buildTree rfc ord pvs = .ok (.obj m) ∧
-      ∀ y, y ∈ flattenDoc (schemaOf (S.map (·.1))) (.obj m) ↔ Expected rfc S y := by
+      (∀ y, y ∈ flattenDoc (schemaOf (S.map (·.1))) (.obj m) ↔ Expected rfc S y) ∧
+      ((flattenDoc (schemaOf (S.map (·.1))) (.obj m)).map (·.1)).Nodup := by
   obtain ⟨heach, hpair⟩ := consistent_spec rfc S hc
   have hok : ∀ x ∈ S, pathOK x.1 = true := fun x hx => (heach x hx).1
   have hg : GoodAt rfc [] S :=
@@ -81,9 +82,9 @@ theorem flatten_build (hord : IsOrder ord) (pvs : List PV) (S : List Entry)
         | cons e r => simp [headOK, lookupKey]⟩,
       hpair, interval_of_sorted S hok (sortedText_of_prune pvs S hd hp)⟩
   obtain ⟨d, hdepth⟩ := exists_depth S
-  obtain ⟨m, hadd, _, hflat⟩ := build_main rfc ord hord (schemaOf (S.map (·.1))) d S [] [] [] hdepth hg
+  obtain ⟨m, hadd, _, hflat, hnodup⟩ := build_main rfc ord hord (schemaOf (S.map (·.1))) d S [] [] [] hdepth hg
     (schemaOK_of_uniform S hu)
-  refine ⟨m, ?_, ?_⟩
+  refine ⟨m, ?_, ?_, hnodup⟩
   · unfold buildTree
     rw [hp, addAll_eq_addAllE rfc ord S _ hok]
     exact hadd
